@@ -139,6 +139,31 @@ def eval_derived(args):
 _S = {}
 
 
+# ---------------------------------------------------------------- typed decoding options: every combination
+def eval_options(args):
+    ver, dt, bt, dec = args
+    import xmlschema
+    from decimal import Decimal
+    s = _S.get(('opt', ver)) or _S.setdefault(('opt', ver), _cls(ver)(f'''<xs:schema {XS}><xs:simpleType name="HL"><xs:list itemType="xs:hexBinary"/></xs:simpleType>
+ <xs:simpleType name="DL"><xs:list itemType="xs:date"/></xs:simpleType>
+ <xs:element name="r"><xs:complexType><xs:sequence><xs:element name="d" type="xs:date"/><xs:element name="t" type="xs:duration"/><xs:element name="h" type="xs:hexBinary"/>
+  <xs:element name="b" type="xs:base64Binary"/><xs:element name="n" type="xs:decimal"/><xs:element name="hl" type="HL"/><xs:element name="dl" type="DL"/><xs:element name="i" type="xs:int"/></xs:sequence>
+  <xs:attribute name="digest" type="xs:hexBinary"/><xs:attribute name="when" type="xs:dateTime"/></xs:complexType></xs:element></xs:schema>'''))
+    doc = '<r digest="0AFD" when="2020-01-01T10:00:00Z"><d>2020-02-29</d><t>P1D</t><h>9afd</h><b>YWxwaGE=</b><n>1.50</n><hl>0A 0B</hl><dl>2020-01-01 2020-01-02</dl><i>7</i></r>'
+    kw = dict(datetime_types=dt, binary_types=bt)
+    if dec: kw['decimal_type'] = dec
+    data = s.decode(doc, **kw)
+    def kind(v):
+        n = type(v).__name__
+        return 'datetime' if n in ('Date10', 'Date', 'DateTime10', 'DateTime', 'Duration', 'DayTimeDuration', 'YearMonthDuration') else 'binary' if n in ('HexBinary', 'Base64Binary') else n
+    want_dt = 'datetime' if dt else 'str'; want_b = 'binary' if bt else 'str'; want_n = {None: 'Decimal', str: 'str', float: 'float'}[dec]
+    exp = {'d': want_dt, 't': want_dt, 'h': want_b, 'b': want_b, 'n': want_n, 'i': 'int', '@digest': want_b, '@when': want_dt}
+    bad = [f'{k}: {kind(data[k])} (value {data[k]!r}), expected {v}' for k, v in exp.items() if kind(data[k]) != v]
+    bad += [f'hl[{i}]: {kind(x)}, expected {want_b}' for i, x in enumerate(data['hl']) if kind(x) != want_b]
+    bad += [f'dl[{i}]: {kind(x)}, expected {want_dt}' for i, x in enumerate(data['dl']) if kind(x) != want_dt]
+    return dict(args=[ver, dt, bt, getattr(dec, '__name__', None)], bad=bad) if bad else None
+
+
 def run(tier, seed, open_findings):
     rng = random.Random(seed)
     texts = [''.join(c) for n in range(0, 5 if tier == 'thorough' else 4) for c in itertools.product(WSCHARS, repeat=n)]
@@ -167,10 +192,17 @@ def run(tier, seed, open_findings):
         fails.append(dict(case=dict(ver=r['ver'], type=r['type'], text=r['text']), observed=dict(valid=r['got'], detail=r.get('detail')), required=dict(valid=r['exp'])))
     out.append(result('C02.derived_types', f'{len(cases)} (class, restriction/list/union type, text) cases', len(cases),
                       fails, exhaustive=True, known=known, samples=[dict(type='u', text='true')]))
+    ojobs = [(ver, dt, bt, dec) for ver in ('1.0', '1.1') for dt in (False, True) for bt in (False, True) for dec in (None, str, float)]
+    ores = [eval_options(j) for j in ojobs]
+    out.append(result('C02.typed_decoding_options', f'{len(ojobs)} combinations of datetime_types x binary_types x decimal_type x class on one document with dates, durations, binaries, a decimal, lists and attributes: '
+                      'dates / binaries are typed objects exactly when requested, text otherwise; decimals follow decimal_type', len(ojobs) * 12,
+                      [dict(case=dict(options=r['args']), observed=r['bad'][:4], required='typed objects exactly when their option is set') for r in ores if r], exhaustive=True, samples=[dict(datetime_types=True, binary_types=True)]))
     return out
 
 
 def replay(check_name, case):
+    if 'options' in case:
+        o = case['options']; r = eval_options((o[0], o[1], o[2], {None: None, 'str': str, 'float': float}[o[3]])); return dict(ok=r is None, observed=r and r['bad'][:4], required='typed objects exactly when requested')
     if check_name == 'C02.normalize':
         b = [x for x in eval_norm([case['text']]) if x['mode'] == case['mode']]
         return dict(ok=not b, observed=b, required='ws_normalize')
